@@ -30,7 +30,8 @@ RULE = ("case = invalid-request class (%d classes covering every item of the sta
         "whose pre-state differs from a freshly constructed object, and every function-level rejection; distinct by "
         "case index."
         " Also: fuzzed requests after histories with reshaping (any call ending in ValueError must leave the state untouched), exact zeros that are not samples as missing slicing values, degenerate fixed-point designations next to unknown rule names, and a twin object that never saw the rejected request (later behaviour must be identical)."
-        " Round-4 classes: unknown strategy names together with an empty or out-of-range look-up / an emptied reference; strategy positionally.") % len(CLASSES)
+        " Round-4 classes: unknown strategy names together with an empty or out-of-range look-up / an emptied reference; strategy positionally."
+        " Round-5 classes: grids with exchanged / reversed end points, unknown strategy names next to valid explicit fixed points, mixed ratio / absolute bounds in the fuzzed requests.") % len(CLASSES)
 REQUIRED_MONITORS = ["c20:" + c for c in CLASSES] + ["c20:state_snapshot", "c20:fuzzed_request", "c20:fuzzed_rejected", "c20:twin_continuation"]
 ASSUMPTIONS = ["out-of-range fixed-point INDICES are not exercised (outside the statement); empty look-ups only together with an unknown name"]
 NSHARDS = 16
